@@ -22,7 +22,7 @@ import time
 
 import z3
 
-REPO = "/repo"
+REPO = os.environ.get("VERIF_REPO") or "/repo"
 WIDTH = {"u8": 8, "u16": 16, "u32": 32, "u64": 64, "usize": 64, "i32": 32, "bool": 1, "i64": 64, "isize": 64, "u128": 128}
 
 
